@@ -36,6 +36,15 @@ def configs(tier, seed):
                             continue  # slicing away the dimension a flow is split by is a contradictory setting (flodym raises)
                         key = f"sankey/" + "+".join(f"{a}>{b}:{d}" for (a, b), d in zip(fs, fdims)) + f"/slice={''.join(f'{k}{v}' for k, v in sl.items()) or '-'}/excl={','.join(excl) or '-'}/exf={int(exf)}/split={split}"
                         out.append(dict(h="sankey", op="sankey", key=key, procs=procs, flows=[list(p) for p in fs], fdims=fdims, stocks=[], slice=sl, excl=excl, exf=exf, split=split))
+    # slices that select an item which is falsy in Python (period 0, an empty label)
+    for i, fs in enumerate(fsets[::3]):
+        fdims = [["ta", "tab", "b", "at", "t"][(i + 2 * j) % 5] for j in range(len(fs))]
+        for sl in ({"t": 0}, {"b": ""}, {"t": 0, "b": ""}, {"t": 1}):
+            for split in (None, 0):
+                if split is not None and fdims[0] and fdims[0][-1] in sl:
+                    continue
+                key = "sankey/" + "+".join(f"{a}>{b}:{d}" for (a, b), d in zip(fs, fdims)) + f"/falsy_items/slice={''.join(f'{k}={v!r}' for k, v in sl.items())}/split={split}"
+                out.append(dict(h="sankey", op="sankey_falsy", key=key, procs=procs, flows=[list(p) for p in fs], fdims=fdims, stocks=[], slice=sl, excl=["sysenv"] if i % 2 else [], exf=False, split=split, falsy_items=True))
     # several excluded processes, written in and out of definition order
     procs4 = ["sysenv", "p1", "p2", "p3"]
     for fs in ([("p2", "p3")], [("p3", "p2"), ("p2", "p3")], [("sysenv", "p2"), ("p2", "p3"), ("p3", "p1")], [("p1", "p3"), ("p3", "p2")]):
@@ -94,7 +103,7 @@ def _sankey(cfg, w):
     for n, (a, b, d, V) in F.items():
         if n in exflows or a in cfg["excl"] or b in cfg["excl"]:
             continue
-        fixed = {l: int(v[1:]) - 1 for l, v in sl.items() if l in d}
+        fixed = {l: mfa.dims[l].items.index(v) for l, v in sl.items() if l in d}
 
         def total(extra=None):
             t = 0
@@ -107,10 +116,10 @@ def _sankey(cfg, w):
         if split_dim and split_dim[0] == n:
             sd = split_dim[1]
             if sd in fixed:
-                expected.append((node[a], node[b], total(), f"{sd}{fixed[sd] + 1}"))  # slicing away the split dim: sum_values_to raises -> see below
+                expected.append((node[a], node[b], total(), str(mfa.dims[sd].items[fixed[sd]])))  # slicing away the split dim: sum_values_to raises -> see below
             else:
                 for k in range(c02.LENS[sd]):
-                    expected.append((node[a], node[b], total((sd, k)), f"{sd}{k + 1}"))
+                    expected.append((node[a], node[b], total((sd, k)), str(mfa.dims[sd].items[k])))
         else:
             expected.append((node[a], node[b], total(), n))
     w.ob("number_of_links", len(val) == len(expected), info=f"{len(val)} links, expected {len(expected)}")
@@ -119,7 +128,7 @@ def _sankey(cfg, w):
     for i, (es, et, ev, el) in enumerate(expected):
         w.ob(f"link{i}:source_target", src[i] == es and tgt[i] == et, info=f"{src[i]}->{tgt[i]} want {es}->{et}")
         w.ob_eq(f"link{i}:value", val[i], ev)
-        w.ob(f"link{i}:label", lab[i] == el, info=f"{lab[i]} want {el}")
+        w.ob(f"link{i}:label", str(lab[i]) == str(el), info=f"{lab[i]!r} want {el!r}")
     for n, (a, b, d, V) in F.items():
         w.ob_arr_eq(f"flow_unchanged[{n}]", mfa.flows[n].values, V)
 
